@@ -795,7 +795,12 @@ pub fn c06(tier: &str, out: Option<&Path>) -> i32 {
     let t0 = Instant::now();
     let thorough = tier == "thorough";
     let mut counts: Vec<usize> = Vec::new();
-    let top = 3 * TREE_FRAMES + HUGE_FRAMES + 1;
+    let top = if thorough || llfree::TREE_HUGE <= 4 && HUGE_FRAMES <= 512 {
+        3 * TREE_FRAMES + HUGE_FRAMES + 1
+    } else {
+        // quick tier, larger geometries: up to one tree and two huge frames
+        TREE_FRAMES + 2 * HUGE_FRAMES + 1
+    };
     if thorough {
         counts.extend(1..=top);
     } else {
